@@ -26,9 +26,14 @@ ASSUMPTIONS = ["the harness chooses thread count, chunk size and query order but
 MAXT = numba.config.NUMBA_NUM_THREADS
 
 
-def _pwm(cols):
+def _pwm(cols, dtype="float64"):
     c = numpy.array(cols, dtype=numpy.float64)
-    return numpy.ascontiguousarray((c / c.sum(axis=1, keepdims=True)).T)
+    m = numpy.ascontiguousarray((c / c.sum(axis=1, keepdims=True)).T)
+    if dtype == "int8":       # a one-hot query as produced by one_hot_encode (arg-max of each column)
+        oh = numpy.zeros(m.shape, dtype=numpy.int8)
+        oh[m.argmax(axis=0), numpy.arange(m.shape[1])] = 1
+        return oh
+    return m.astype(dtype)
 
 
 def _run(Qs, Ts, case, n_jobs, chunk=0, n_nearest=None):
@@ -57,7 +62,10 @@ def _static_chunks(n_items, n_threads, chunk):
 
 
 def schedule_case(case, ctx):
-    Qs = [_pwm(c) for c in case["queries"]]
+    qd = case.get("query_dtypes") or ["float64"] * len(case["queries"])
+    Qs = [_pwm(c, d) for c, d in zip(case["queries"], qd)]
+    if len(set(qd)) > 1:
+        ctx.label("mixed_query_dtypes")
     Ts = [_pwm(c) for c in case["targets"]]
     nT = len(Ts)
     try:
@@ -94,6 +102,10 @@ def schedule_case(case, ctx):
 
 def nearest_case(case, ctx):
     Qs = [_pwm(c) for c in case["queries"]]
+    for h in case.get("homopolymer_queries", []):
+        q = numpy.zeros((4, h[1]))
+        q[h[0]] = 1.0
+        Qs.append(q)
     Ts = [_pwm(c) for c in case["targets"]]
     nT = len(Ts)
     nn = min(case["n_nearest"], nT)
@@ -116,6 +128,8 @@ def nearest_case(case, ctx):
                     lambda: "query %d rank %d index %d: %s vs full row %s" % (qi, k, int(idx[k]), res[:5, qi, k].tolist(), full[:, qi, idx[k]].tolist()))
     ctx.nt(nn < nT and len(Qs) >= 2)
     ctx.label("n_nearest=%s" % ("1" if nn == 1 else ("all" if nn == nT else "some")))
+    if bool((full[0] == 1.0).any()):
+        ctx.label("row_contains_p_exactly_1")
 
 
 def annotate_case(case, ctx):
@@ -124,6 +138,13 @@ def annotate_case(case, ctx):
     L = case["L"]
     g = torch.Generator().manual_seed(case["seed"])
     X = torch.rand((case["B"], 4, L), generator=g, dtype=torch.float64)
+    if case.get("same_argmax") and case["B"] >= 2:
+        # example 1 has the same arg-max character everywhere as example 0 but different values (and some all-zero columns):
+        # seqlets must be told apart by their values, not by their consensus string
+        am = X[0].argmax(dim=0)
+        X[1] = 0.05 * torch.rand((4, L), generator=g, dtype=torch.float64)
+        X[1, am, torch.arange(L)] = 0.3 + 0.6 * torch.rand(L, generator=g, dtype=torch.float64)
+        ctx.label("examples_share_argmax")
     rows = case["seqlets"]
     df = pandas.DataFrame(rows, columns=["example_idx", "start", "end"])
     nn = min(case["n_nearest"], len(Ts))
@@ -188,15 +209,23 @@ def schedule_strategy(draw):
         schedules.append({"order": order, "n_jobs": nj, "chunk": draw(st.sampled_from([0, 0, 1, 2])),
                           # a genuine data race shows only in some interleavings: multi-thread schedules are repeated (more in thorough)
                           "repeat": 1 if nj == 1 else draw(st.sampled_from([1, 2] if MAXT <= 4 else [2, 5, 10]))})
-    return {"queries": queries, "targets": targets, "rc": draw(st.booleans()), "n_target_bins": draw(st.sampled_from([None, None, 100])),
+    case = {"queries": queries, "targets": targets, "rc": draw(st.booleans()), "n_target_bins": draw(st.sampled_from([None, None, 100])),
             "schedules": schedules}
+    if draw(st.integers(0, 2)) == 0:
+        # query lists are often heterogeneous (one-hot int8 seqlets next to float PWMs): a query's result may not depend on its neighbours' dtype
+        case["query_dtypes"] = [draw(st.sampled_from(["int8", "float32", "float64", "float64"])) for _ in range(nQ)]
+    return case
 
 
 @st.composite
 def nearest_strategy(draw):
     queries, targets = draw(pools(1, 6))
-    return {"queries": queries, "targets": targets, "rc": draw(st.booleans()), "n_target_bins": draw(st.sampled_from([None, 100])),
-            "n_nearest": draw(st.integers(1, len(targets))), "n_jobs": draw(st.sampled_from([1, 2, 4]))}
+    case = {"queries": queries, "targets": targets, "rc": draw(st.booleans()), "n_target_bins": draw(st.sampled_from([None, 100])),
+            "n_nearest": draw(st.one_of(st.integers(1, len(targets)), st.just(len(targets)), st.just(max(1, len(targets) - 1)))),
+            "n_jobs": draw(st.sampled_from([1, 2, 4]))}
+    if draw(st.booleans()):
+        case["homopolymer_queries"] = [[draw(st.integers(0, 3)), draw(st.sampled_from([12, 20, 25]))] for _ in range(draw(st.integers(1, 2)))]
+    return case
 
 
 @st.composite
@@ -209,9 +238,12 @@ def annotate_strategy(draw):
     for _ in range(n):
         s = draw(st.integers(0, L - 3))
         rows.append([draw(st.integers(0, B - 1)), s, draw(st.integers(s + 2, min(L, s + 25)))])
+        if B >= 2 and draw(st.booleans()):
+            rows.append([1 - rows[-1][0] if rows[-1][0] in (0, 1) else 0, rows[-1][1], rows[-1][2]])   # same span in the sibling example
+    n = len(rows)
     return {"targets": targets, "B": B, "L": L, "seed": draw(st.integers(0, 10 ** 6)), "seqlets": rows, "rc": draw(st.booleans()),
             "n_nearest": draw(st.integers(1, 3)), "n_jobs": draw(st.sampled_from([1, 2, 4])), "n_jobs2": draw(st.sampled_from([1, 3])),
-            "perm": list(draw(st.permutations(list(range(n)))))}
+            "perm": list(draw(st.permutations(list(range(n))))), "same_argmax": draw(st.booleans())}
 
 
 def subchecks(tier):
